@@ -416,3 +416,29 @@ def blocking_problems(finals, log=None) -> List[str]:
             if ev.kind == 'killed_wait':
                 problems.append('Event.wait() at line %d inside the provider loop' % ev.line)
     return sorted(set(problems))
+
+
+def parked_primitive_problems(repo, pm):
+    """C05.G10 / C16.R10: an attribute of the provider that keeps a request primitive taken from the service user's queue for later is
+    written only on a path on which it is known to be empty.  -> (problems, number of such stores)"""
+    p10, n10 = [], 0
+    _SC, _es = SymClient, empty_state
+    for name in PRODUCERS:
+        f_ = pm.method(name)
+        never_ = {'run', 'start', 'kill', 'stop', 'send', 'receive', '__init__', 'join', 'is_alive'} | set(PRODUCERS)
+        cq = _SC(repo, f_, event_of=lambda *a: None, hierarchy=pm.hier,
+                 inline=lambda fi: fi.cls is not None and fi.cls.key == pm.cls.key and fi.name not in never_ and fi.kind == 'method',
+                 store_event=lambda t: t.startswith('self.') and t.count('.') == 1)
+        cq.run(_es())
+        for e_, s_ in cq.log:
+            if e_.kind != 'store' or not e_.args or 'from_service_user.get(' not in e_.args[0]:
+                continue
+            attr_ = e_.callee
+            if attr_ in ('self.primitive',):
+                continue        # the primitive being handled now: an event is appended with it (G3 / G4)
+            n10 += 1
+            empty_ = any(c_ in ('+%s is None' % attr_, '-%s is not None' % attr_, '-%s' % attr_, '+not %s' % attr_) for c_ in e_.conds)
+            if not empty_:
+                p10.append('%s: %s = <primitive taken from the queue> at line %d on a path that does not know %s to be empty: a primitive '
+                           'parked there before is overwritten and never sent' % (f_.loc(), attr_, e_.line, attr_))
+    return sorted(set(p10)), n10
